@@ -330,10 +330,30 @@ class Builder:
         return self.t(s)
 
     def e_Lambda(self, e):
+        if self.track_effects:
+            bound = {a_.arg for a_ in e.args.posonlyargs + e.args.args + e.args.kwonlyargs}
+            names_ = sorted({n_.id for n_ in ast.walk(e.body) if isinstance(n_, ast.Name) and isinstance(n_.ctx, ast.Load)} - bound)
+            free = tuple((n_, self.env[n_] if isinstance(self.env[n_], Rat) else app("const", str(self.env[n_]))) for n_ in names_ if n_ in self.env)
+            if free:
+                return app("lambda", _canon_region_text(e), free)      # a lambda carries the values of the locals it closes over
+            return app("lambda", _canon_region_text(e))
         return app("lambda", ast.unparse(e))
 
     def e_JoinedStr(self, e):
-        return app("const", "fstring")
+        if not self.track_effects:
+            return app("const", "fstring")
+        # in summaries a formatted string is its literal pieces and the values formatted into it (messages of raises never get here:
+        # a raise is a refusal whatever it says)
+        parts = []
+        for v in e.values:
+            if isinstance(v, ast.Constant):
+                parts.append(app("const", repr(v.value)))
+            elif isinstance(v, ast.FormattedValue):
+                tv = self.t(v.value)
+                tv = tv if isinstance(tv, Rat) else (app("tuple", *tv) if isinstance(tv, tuple) else app("const", str(tv)))
+                spec_ = ast.unparse(v.format_spec) if v.format_spec is not None else ""
+                parts.append(app("fmt", tv, app("const", f"{v.conversion}:{spec_}")))
+        return app("fstr", tuple(parts))
 
     # comprehensions: element expression over a symbolic element of each iterable, so that the names they use are the caller's
     # values (renamed or hoisted locals do not change the term)
